@@ -1,6 +1,6 @@
 From Coq Require Import ExtrOcamlBasic.
-From MV Require Import Dtls.DtlsModel.
+From MV Require Import Dtls.DtlsModel Dtls.FlightModel.
 Extraction Language OCaml.
 Cd "../ocaml/gen".
-Extraction "m_c16.ml" chk_replay dtls_rx ccs_parsed run_verdicts run_win_bits run run_wraps compare_epoch incr_two_byte win_empty Nat.add.
+Extraction "m_c16.ml" chk_replay dtls_rx ccs_parsed run_verdicts run_win_bits run run_wraps compare_epoch incr_two_byte win_empty Nat.add flights hs_rx.
 Cd "../../coq".
